@@ -403,11 +403,11 @@ ApplyLen(f, t, m) ==
             LET U(on) == LenC(on, "eq", "3", "Upper exactly 3") IN LenOnText(AddUpperInv(m, t, U), "eq", "3", "Text exactly 3")
       \* the *upper* declaration (a parent with a descendant, or the constrained primitive) contradicts itself
       [] f = "len_upper_same_ge5_le3" ->
-            LET U1(on) == LenC(on, "ge", "5", "Upper at least 5")
-                U2(on) == LenC(on, "le", "3", "Upper at most 3") IN AddUpperInv(AddUpperInv(m, t, U1), t, U2)
+            LET U1(on) == LenC(on, "ge", "5", "Upper itself at least 5")
+                U2(on) == LenC(on, "le", "3", "Upper itself at most 3") IN AddUpperInv(AddUpperInv(m, t, U1), t, U2)
       [] f = "len_upper_same_eq2_eq3" ->
-            LET U1(on) == LenC(on, "eq", "2", "Upper exactly 2")
-                U2(on) == LenC(on, "eq", "3", "Upper exactly 3") IN AddUpperInv(AddUpperInv(m, t, U1), t, U2)
+            LET U1(on) == LenC(on, "eq", "2", "Upper itself exactly 2")
+                U2(on) == LenC(on, "eq", "3", "Upper itself exactly 3") IN AddUpperInv(AddUpperInv(m, t, U1), t, U2)
       [] f = "len_items_ge0" -> AddInv(m, S, LenC("items", "ge", "0", FreshDesc(m, "Items at least 0")))
       [] f = "len_items_eq0" -> AddInv(m, S, LenC("items", "eq", "0", FreshDesc(m, "Items exactly 0")))
       [] f = "len_items_ge5_le3" ->
